@@ -108,7 +108,7 @@ def derived_deep(f, t):
 
 def rules(fx, ck, scope, printer_root="value::number_to_string", pre=""):
     ck.rule("R4.digits-from-the-number", "every f64 handed to Display/LowerExp in the number printers is the number itself, not a value computed from it", floor=4)
-    ck.rule("R5.one-printer", "plain `{}` of a script number only inside value::number_to_string and its helpers", floor=2)
+    ck.rule("R5.one-printer", "plain `{}` of a script number only inside value::number_to_string and its helpers", floor=1)
     ck.rule("R6.tie-rounding", "no precision formatting (`{:.N}`, `{:.Ne}`: ties to even) of a script number where ECMAScript picks the larger candidate", floor=0)
     cone = set()
     if printer_root in fx.fns:
@@ -146,3 +146,119 @@ def rules(fx, ck, scope, printer_root="value::number_to_string", pre=""):
             ck.finding("R6.tie-rounding", "R6.tie-rounding/%s" % top, F.short_span(t[6]),
                        "`%s` rounds with Rust's precision formatting, which rounds an exact tie to even; ECMAScript picks the larger candidate: "
                        "`(2.5).toFixed(0)` gives '2' (spec: '3'), `(0.5).toFixed(0)` '0' (spec: '1'), `(2.5).toPrecision(1)` '2' (spec: '3')" % top)
+
+
+LIMITS = {"i64": 9.3e18, "u64": 1.9e19, "i32": 2.2e9, "u32": 4.3e9, "isize": 9.3e18, "usize": 1.9e19, "i128": 1.8e38, "u128": 3.5e38, "i16": 32768.0, "u16": 65536.0,
+          "i8": 128.0, "u8": 256.0}
+
+
+def cast_rule(fx, ck, scope, printer_root="value::number_to_string", number_sources=("get_number_value",), pre=""):
+    """R4b: the printers do not squeeze the number through an integer type it may not fit.  `n as i64` saturates at 2^63: every integral
+    double above that prints as i64::MAX.  A float->int cast of the number being printed needs a dominating comparison of the number with a
+    constant inside the integer type's range."""
+    from c09 import ancestors
+    ck.rule("R4b.no-saturating-cast", "a float->int cast of the number being printed is behind a comparison with a constant inside the integer type's range",
+            floor=0)
+    cone = set()
+    if printer_root in fx.fns:
+        work = [printer_root]
+        while work:
+            p = work.pop()
+            if p in cone:
+                continue
+            cone.add(p)
+            for bi, t in fx.fns[p].calls():
+                if t[1].get("local") and t[1].get("d") in fx.fns:
+                    work.append(t[1]["d"])
+    n = 0
+    for p, f in sorted(fx.fns.items()):
+        if not scope(f) or f.closure:
+            continue
+        # the printed number: an f64 parameter of a printer, or what the receiver-unwrapping helper returned
+        nums = set()
+        if p in cone:
+            nums |= {i for i in range(1, f.argc + 1) if fx.tys(f.locals[i]) == "f64"}
+        for bi, t in f.calls():
+            if (t[1].get("d") or "").endswith(number_sources) and not t[3][1]:
+                nums.add(t[3][0])
+        if not nums:
+            continue
+        num_anc_cache = {}
+        for bi, bl in enumerate(f.blocks):
+            for s in bl["s"]:
+                if not (s[0] == "a" and s[2][0] == "cast" and s[2][1] == "FloatToInt" and s[2][2][0] in ("c", "m")):
+                    continue
+                anc = ancestors(f, s[2][2][1][0])
+                if not any(_derived_from_number(f, a, nums) for a in [s[2][2][1][0]]) and not (anc & nums):
+                    continue
+                if not (anc & _closure_of(f, nums)):
+                    continue
+                dst = fx.tys(f.locals[s[1][0]]) if not s[1][1] else "?"
+                lim = LIMITS.get(dst)
+                n += 1
+                ok = False
+                for sb, sbl in enumerate(f.blocks):
+                    t = sbl["t"]
+                    if t[0] != "switch" or t[1][0] not in ("c", "m") or not f.dominates(sb, bi) or sb == bi:
+                        continue
+                    d = M.trace_back(f, t[1][1][0])
+                    if not (d and d[1] != "T" and d[2][0] == "bin" and d[2][1] in ("Lt", "Le", "Gt", "Ge")):
+                        continue
+                    for a, b in ((d[2][2], d[2][3]), (d[2][3], d[2][2])):
+                        if b[0] == "k" and isinstance(b[2], dict) and "float" in b[2] and a[0] in ("c", "m"):
+                            try:
+                                c = abs(float(b[2]["float"]))
+                            except ValueError:
+                                continue
+                            if lim is not None and c <= lim and (ancestors(f, a[1][0]) & _closure_of(f, nums)):
+                                ok = True
+                ck.instance("R4b.no-saturating-cast", "%s: the printed number as %s" % (p, dst), F.short_span(s[3]), ok=ok)
+                if not ok:
+                    ck.finding("R4b.no-saturating-cast", "R4b.no-saturating-cast/%s/%s" % (p, dst), F.short_span(s[3]),
+                               "`%s` casts the number it prints to `%s` without a range test inside that type's range: the cast saturates, so every "
+                               "integral double beyond it prints as the type's maximum (`String(1e19)` / `(1e20).toString(16)`)" % (p, dst))
+    return n
+
+
+def _closure_of(f, nums):
+    """locals computed from the printed number (forward closure through statements and calls)"""
+    out = set(nums)
+    changed = True
+    while changed:
+        changed = False
+        for bi, bl in enumerate(f.blocks):
+            for s in bl["s"]:
+                if s[0] == "a" and not s[1][1] and s[1][0] not in out and any(pl[0] in out for pl in F.rvalue_places(s[2])):
+                    out.add(s[1][0])
+                    changed = True
+            t = bl["t"]
+            if t[0] == "call" and not t[3][1] and t[3][0] not in out and any(a[0] in ("c", "m") and a[1][0] in out for a in t[2]):
+                out.add(t[3][0])
+                changed = True
+    return out
+
+
+def _derived_from_number(f, local, nums):
+    return local in _closure_of(f, nums)
+
+
+from c09 import ancestors as _anc
+
+
+def cast_then_bitwise(fxx, scope):
+    out = []
+    for p, g in sorted(fxx.fns.items()):
+        if g.derived or not scope(g):
+            continue
+        casts = {st[1][0] for bl in g.blocks for st in bl["s"] if st[0] == "a" and st[2][0] == "cast" and st[2][1] == "FloatToInt" and not st[1][1]}
+        if not casts:
+            continue
+        for bl in g.blocks:
+            for st in bl["s"]:
+                if st[0] == "a" and st[2][0] == "bin" and st[2][1].replace("WithOverflow", "").replace("Unchecked", "") in ("Shl", "Shr", "BitAnd", "BitOr", "BitXor") \
+                        and len(st[2]) > 4 and fxx.tys(st[2][4]) != "bool":
+                    # the shifted / combined value (left operand for shifts, either for the others)
+                    ops = [st[2][2]] if st[2][1].startswith("Sh") else [st[2][2], st[2][3]]
+                    if any(o[0] in ("c", "m") and _anc(g, o[1][0]) & casts for o in ops):
+                        out.append((g, st))
+    return out
